@@ -1,6 +1,6 @@
 SPECIFICATION Spec
 CONSTANTS
-  ItemKinds = {"local", "call", "pcall", "do", "func"}
+  ItemKinds = {"local", "call", "pcall", "do", "func", "afunc"}
   MaxTop = 2
   MaxDev = 2
   DevTypes = {"semi", "tail", "range"}
